@@ -20,7 +20,7 @@ RULE = ("each generated document is rendered under 8 random surface policies (pe
 EVAL_KEY = "evaluations"
 DISTINCT_KEY = "renderings"
 NSHARDS = {"quick": 8, "thorough": 16}
-FLOORS = {"quick": {"renderings_judged": 4000, "corpus_perturbations": 600, "distinct:gap-kinds": 60, "irs": 150, "include_directive_spellings": 100},
+FLOORS = {"quick": {"renderings_judged": 3500, "corpus_perturbations": 600, "distinct:gap-kinds": 60, "irs": 150, "include_directive_spellings": 100},
           "thorough": {"renderings_judged": 80000, "corpus_perturbations": 1600, "distinct:gap-kinds": 80, "irs": 8000, "include_directive_spellings": 100}}
 ASSUMPTIONS = ["the renderer (mf/render.py) varies only what the property lists; what a rendering means is fixed by the IR",
                "corpus gaps are located with mappyfile's own lexer (input generation only, never the oracle)"]
